@@ -56,12 +56,12 @@ impl Check for C13 {
         "C13"
     }
     fn rule(&self) -> String {
-        format!("the full matrix of {} points = write side {{none, plain, sharded}} x 0-2 read-only levels each plain/sharded x each level holding {{nothing, A, B}} x operation {{get, touch, ensure, get_or_update x {{Accept, Promote, Replace}}, set, put, set_temp_file, put_temp_file}} x populate outcome {{value C, NotFound, Other error}}, each point run on a fresh simulated filesystem (quick: once; thorough: 60 times) with swarm dimensions auto_sync, value sizes, atime policy, granularity, umask, judge read length and reader noise by a second process; judged against a reference model of the stack (returned bytes, judge argument, populate's old argument, before/after snapshots of every level). Every point is non-trivial; distinct = matrix point", n13())
+        format!("the full matrix of {} points = write side {{none, plain, sharded}} x 0-2 read-only levels each plain/sharded x each level holding {{nothing, A, B}} x operation {{get, touch, ensure, get_or_update x {{Accept, Promote, Replace}}, set, put, set_temp_file, put_temp_file}} x populate outcome {{value C, NotFound, Other error}}, each point run on a fresh simulated filesystem (quick: 100 times; thorough: 5000 times) with swarm dimensions auto_sync, value sizes, atime policy, granularity, umask, judge read length and reader noise by a second process; judged against a reference model of the stack (returned bytes, judge argument, populate's old argument, before/after snapshots of every level). Every point is non-trivial; distinct = matrix point", n13())
     }
     fn runs(&self, tier: Tier) -> u64 {
         match tier {
-            Tier::Quick => n13(),
-            Tier::Thorough => n13() * 60,
+            Tier::Quick => n13() * 100,
+            Tier::Thorough => n13() * 5000,
         }
     }
     fn exhaustive(&self, _tier: Tier) -> bool {
@@ -86,8 +86,8 @@ impl Check for C14 {
     }
     fn runs(&self, tier: Tier) -> u64 {
         match tier {
-            Tier::Quick => n14(),
-            Tier::Thorough => n14() * 40,
+            Tier::Quick => n14() * 30,
+            Tier::Thorough => n14() * 1500,
         }
     }
     fn exhaustive(&self, _tier: Tier) -> bool {
@@ -112,8 +112,8 @@ impl Check for C15 {
     }
     fn runs(&self, tier: Tier) -> u64 {
         match tier {
-            Tier::Quick => n13() + n14() + 6_000,
-            Tier::Thorough => (n13() + n14()) * 20 + 400_000,
+            Tier::Quick => (n13() + n14() + 6_000) * 10,
+            Tier::Thorough => (n13() + n14() + 6_000) * 400,
         }
     }
     fn run(&self, tape: &mut Tape, ctx: &RunCtx) -> RunOut {
@@ -140,7 +140,7 @@ impl Check for C15 {
                 max_ops: 60,
                 no_eviction: false,
                 readonly_roots: 1 + tape.draw(2) as usize,
-                op_weights: OpWeights { get: 3, get_noread: 1, touch: 2, set: 2, put: 2, ensure: 4, gou: 4 },
+                op_weights: OpWeights { get: 3, get_noread: 1, touch: 2, set: 2, put: 2, ensure: 4, gou: 4 }, final_prune: false
             };
             let rep = hist::run_history(tape, &hp, ctx.detail);
             let mut out = hist::to_runout(rep, &["ro"], ctx.detail);
@@ -163,8 +163,8 @@ impl Check for C19 {
     }
     fn runs(&self, tier: Tier) -> u64 {
         match tier {
-            Tier::Quick => n13() + n14(),
-            Tier::Thorough => (n13() + n14()) * 40,
+            Tier::Quick => (n13() + n14()) * 25,
+            Tier::Thorough => (n13() + n14()) * 1200,
         }
     }
     fn exhaustive(&self, _tier: Tier) -> bool {
